@@ -275,3 +275,6 @@ def run(ctx):
         exh = [p for p in rets if any(c.term[0] == "discr" and is_call(c.term[1], "Iterator>::next") and c.fact == ("eq", 0) for c in p.conds())]
         ctx.check(bool(rets) and len(exh) == len(rets), "D5-LINES", DFB, "exhaustive", "returns only after the line iterator is exhausted",
                   "Distinfo::from_bytes can return before every line was looked at (%d of %d returning paths leave the loop early)" % (len(rets) - len(exh), len(rets)), fn_span(body), nontrivial=False)
+
+    # ---- the accessors through which the recorded entries are observed
+    distinfo_accessors(ctx, "D3-ACCESSOR")
